@@ -312,12 +312,16 @@ def run(prog, world, sem, rep):
         sv = summ[0][0]
         # which component of the summing result belongs to which token
         sret = world.ident(world.ret_expr(sv.body), expand_ws=False)
-        comp_tok = {}
+        comp_tok = {}   # component of the summing result (tuple index or struct field name) -> token
+        comps = []
         if sret.op == "tuple":
-            for i, c in enumerate(sret.args):
-                names = {y.info[0].split("_")[0] for y in find(world.norm(c), lambda y: y.op == "field" and (y.info[0].endswith("_amount") or y.info[0].endswith("_withdraw_rate")))}
-                if len(names) == 1:
-                    comp_tok[i] = names.pop()
+            comps = [(str(i), c) for i, c in enumerate(sret.args)]
+        elif sret.op == "adt" and sret.info[2]:
+            comps = list(zip(sret.info[2], sret.args))
+        for nm0, c in comps:
+            names = {y.info[0].split("_")[0] for y in find(world.norm(c), lambda y: y.op == "field" and (y.info[0].endswith("_amount") or y.info[0].endswith("_withdraw_rate")))}
+            if len(names) == 1:
+                comp_tok[nm0] = names.pop()
         wb = [b for b in rel[0][3] if (lambda e: e.op == "call" and e.info in writers)(lv.be.ev_call(b, lv.body.blocks[b].term))][0]
         we = lv.be.ev_call(wb, lv.body.blocks[wb].term)
         hv = world.ident(we.args[2], expand_ws=False)
@@ -330,8 +334,12 @@ def run(prog, world, sem, rep):
                 a_amt, a_rate, a_tot, a_sl = [world.ident(x, expand_ws=False) for x in r.args]
                 c1 = a_amt.op == "field" and a_amt.info[0] == "%s_amount" % tk
                 c2 = a_rate.op == "field" and a_rate.info[0] == "%s_withdraw_rate" % tk
-                c3 = a_tot.op == "field" and a_tot.info[0].isdigit() and comp_tok.get(int(a_tot.info[0])) == tk
+                c3 = a_tot.op == "field" and comp_tok.get(a_tot.info[0]) == tk
                 c4 = False
+                if a_sl.op == "field" and a_sl.args[0].op == "call" and world.callee_body(a_sl.args[0]) is not None and world.is_pure(world.callee_body(a_sl.args[0])):
+                    # the slashed amounts may come out of a pure helper / method returning a small struct: looked through
+                    from ..expr import E as _E, simplify as _simp
+                    a_sl = world.ident(_simp(_E("field", (world.expand(a_sl.args[0]),), a_sl.info)), expand_ws=False)
                 if a_sl.op == "call" and a_sl.info.endswith("from_subtraction"):
                     first = world.ident(a_sl.args[0], expand_ws=False)
                     c4 = first == a_tot
